@@ -20,6 +20,7 @@ from vlib import rulegen as rg
 
 IMPORTS = ("Rules.Builtin",)
 FUEL = 600
+F7Q_CLASS = "F7q-slg-nested-coinductive-scc"
 
 
 class Case:
@@ -70,15 +71,6 @@ def gen_programs(ctx, profile, n_prog, n_goals):
     return progs, cases
 
 
-def check_wf(ctx, progs):
-    defs = {"D%d" % i: ("decls", p.model) for i, p in enumerate(progs)}
-    exprs = [(["D%d" % i], logic.bb("wf_full D%d" % i)) for i in range(len(progs))]
-    codes, fl = logic.coq_codes(ctx.work, "wf", defs, exprs, shard=max(8, len(exprs) // 16 + 1), imports=IMPORTS)
-    if fl:
-        raise core.CheckFailure("coq evaluation of wf_full failed: %s" % (fl[0],))
-    return defs, codes
-
-
 def run_rules(cases, timeout=600):
     """fills c.real_bodies for every case"""
     by_prog = collections.OrderedDict()
@@ -114,30 +106,37 @@ def bodies_model(c):
     return [[rg.atom_model(b, c.prog) for b in body] for body in c.real_bodies]
 
 
-def compare_bodies(ctx, tag, defs, cases):
-    """Coq: same_bodies (bodsR D atom) <real bodies>; sets c.bodies_ok"""
-    todo = [c for c in cases if isinstance(c.real_bodies, list)]
-    exprs = []
-    for c in todo:
-        d = "D%d" % c.pidx
-        exprs.append(([d], logic.bb("same_bodies (bodsR %s %s) %s" % (d, sx.to_coq(rg.atom_model(c.atom, c.prog)), sx.to_coq(bodies_model(c))))))
-    codes, fl = logic.coq_codes(ctx.work, tag, defs, exprs, shard=max(20, len(exprs) // 16 + 1), imports=IMPORTS)
-    if fl:
-        raise core.CheckFailure("coq evaluation of same_bodies failed: %s" % (fl[0],))
-    for c, k in zip(todo, codes):
-        c.bodies_ok = (k == 1)
-
-
-def oracle(ctx, tag, defs, cases):
-    exprs = []
+def coq_batch(ctx, tag, progs, cases):
+    """ONE sharded Coq evaluation (startup dominates): wf_full of every program, same_bodies of
+    every case with a translated clause dump, evalR of every case.  Returns (defs, wf codes)."""
+    defs = {"D%d" % i: ("decls", p.model) for i, p in enumerate(progs)}
+    exprs, slots = [], []
+    by_prog = collections.defaultdict(list)
     for c in cases:
-        d = "D%d" % c.pidx
-        exprs.append(([d], logic.ob("evalR %d %s %s" % (FUEL, d, sx.to_coq(rg.atom_model(c.atom, c.prog))))))
-    codes, fl = logic.coq_codes(ctx.work, tag, defs, exprs, shard=max(20, len(exprs) // 16 + 1), imports=IMPORTS)
+        by_prog[c.pidx].append(c)
+    for i in range(len(progs)):
+        d = "D%d" % i
+        exprs.append(([d], logic.bb("wf_full %s" % d)))
+        slots.append(("wf", i))
+        for c in by_prog.get(i, []):
+            a = sx.to_coq(rg.atom_model(c.atom, c.prog))
+            if isinstance(c.real_bodies, list):
+                exprs.append(([d], logic.bb("same_bodies (bodsR %s %s) %s" % (d, a, sx.to_coq(bodies_model(c))))))
+                slots.append(("bod", c))
+            exprs.append(([d], logic.ob("evalR %d %s %s" % (FUEL, d, a))))
+            slots.append(("orc", c))
+    codes, fl = logic.coq_codes(ctx.work, tag, defs, exprs, shard=max(40, len(exprs) // core.NCPU + 1), imports=IMPORTS)
     if fl:
-        raise core.CheckFailure("coq evaluation of evalR failed: %s" % (fl[0],))
-    for c, k in zip(cases, codes):
-        c.oracle = {0: False, 1: True}.get(k)
+        raise core.CheckFailure("coq evaluation (wf_full / same_bodies / evalR) failed: %s" % (fl[0],))
+    wf = {}
+    for (kind, x), k in zip(slots, codes):
+        if kind == "wf":
+            wf[x] = k
+        elif kind == "bod":
+            x.bodies_ok = (k == 1)
+        else:
+            x.oracle = {0: False, 1: True}.get(k)
+    return defs, wf
 
 
 SOLVERS = (("slg", pg.SLG), ("rec", pg.REC))
@@ -194,37 +193,35 @@ def reach_size(ctx, defs, c):
     return 1000 if fl else codes[0]
 
 
-def main_pipeline(ctx, profile, n_prog, n_goals, prop_id, cpu=5):
-    """steps 1-3 of the module docstring; returns (progs, cases, defs, stats)"""
-    progs, cases = gen_programs(ctx, profile, n_prog, n_goals)
-    defs, wf = check_wf(ctx, progs)
-    bad_wf = [i for i, k in enumerate(wf) if k != 1]
-    stats = collections.Counter()
-    if bad_wf:
-        # the generator promises well-formed declarations: a harness-side error, not a verdict on chalk
-        raise core.CheckFailure("generator produced declarations that fail wf_full: %s" % progs[bad_wf[0]].text)
-
-    # -- clause correspondence, breadth first (depth 2) -----------------------------------
+def main_pipeline(ctx, progs, cases, cpu=5):
+    """steps 1-3 of the module docstring on prepared programs / cases; returns (all cases, defs)"""
+    import concurrent.futures
+    # -- clause dumps of the real code, breadth first (depth 2) ------------------------------
     run_rules(cases)
     seen = {(c.pidx, c.atom) for c in cases}
     extra = []
     for c in cases:
-        if isinstance(c.real_bodies, list):
+        if isinstance(c.real_bodies, list) and c.origin == "goal":
             for body in c.real_bodies:
                 for b in body:
-                    if (c.pidx, b) not in seen and len(extra) < 4 * len(cases):
+                    if (c.pidx, b) not in seen and len(extra) < 2 * len(cases):
                         seen.add((c.pidx, b))
                         e = Case(c.pidx, c.prog, b, "body")
                         e.text = rg.goal_text(b, False)
                         extra.append(e)
     run_rules(extra)
     allc = cases + extra
-    compare_bodies(ctx, "bod", defs, allc)
-
-    # -- verdicts ----------------------------------------------------------------------------
-    oracle(ctx, "orc", defs, allc)
-    run_solvers(allc, cpu=cpu)
-    return progs, allc, defs, stats
+    # -- model side (Coq) and the real solvers, side by side ---------------------------------
+    with concurrent.futures.ThreadPoolExecutor(max_workers=2) as ex:
+        f1 = ex.submit(coq_batch, ctx, "all", progs, allc)
+        f2 = ex.submit(run_solvers, allc, cpu)
+        defs, wf = f1.result()
+        f2.result()
+    bad_wf = [i for i, k in wf.items() if k != 1]
+    if bad_wf:
+        # the generator promises well-formed declarations: a harness-side error, not a verdict on chalk
+        raise core.CheckFailure("generator produced declarations that fail wf_full: %s" % progs[bad_wf[0]].text)
+    return allc, defs
 
 
 def judge(ctx, prop_id, progs, cases, defs):
@@ -274,11 +271,33 @@ def judge(ctx, prop_id, progs, cases, defs):
             ctx.sample({"program": c.prog.text[:400], "goal": c.text, "oracle": c.oracle,
                         "slg": sx.to_sexp(c.answers.get("slg", "?"))[:60], "rec": sx.to_sexp(c.answers.get("rec", "?"))[:60]})
 
-    for c, sname in verdict_mismatch[:5]:
-        ctx.violation(describe(c, {"kind": "wrong-answer", "solver": sname,
-                                   "relation": "solver answer must be Unique iff evalR = Some true, NoSolution iff Some false "
-                                               "(evalR_correct + %s)" % ("auto_clauses_spec" if prop_id == "C05" else "sized/copy/clone/tuple/fnptr_spec")}))
-    if clause_mismatch and not verdict_mismatch:
+    # wrong answers of a FRESH SLG solver of the form "NoSolution for a goal that holds" may belong to the
+    # known class F7q (decided in Coq on the input: program + goal); everything else is a violation
+    known = {}
+    sus = [(c, sname) for c, sname in verdict_mismatch
+           if sname == "slg" and c.oracle is True and verdict_of(c.answers["slg"]) is False and ctx.match_known(None, F7Q_CLASS)]
+    if sus:
+        exprs = [(["D%d" % c.pidx], logic.bb("f7q_class %d (bodsR D%d) (isco (coD D%d)) %s" % (FUEL, c.pidx, c.pidx, sx.to_coq(rg.atom_model(c.atom, c.prog)))))
+                 for c, _ in sus]
+        codes, fl = logic.coq_codes(ctx.work, "f7q", defs, exprs, shard=max(10, len(exprs) // core.NCPU + 1), imports=IMPORTS)
+        if fl:
+            raise core.CheckFailure("coq evaluation of f7q_class failed: %s" % (fl[0],))
+        for (c, sname), k in zip(sus, codes):
+            if k == 1:
+                known[(id(c), sname)] = True
+    reported = 0
+    for c, sname in verdict_mismatch:
+        if known.get((id(c), sname)):
+            cnt["known_F7q"] += 1
+            ctx.known_finding(ctx.match_known(None, F7Q_CLASS), c.text + "  in  " + " ".join(c.prog.text.split())[:300])
+            continue
+        cnt["violations"] += 1
+        if reported < 5:
+            reported += 1
+            ctx.violation(describe(c, {"kind": "wrong-answer", "solver": sname,
+                                       "relation": "solver answer must be Unique iff evalR = Some true, NoSolution iff Some false "
+                                                   "(evalR_correct + %s)" % ("auto_clauses_spec" if prop_id == "C05" else "sized/copy/clone/tuple/fnptr_spec")}))
+    if clause_mismatch and not cnt["violations"]:
         c = clause_mismatch[0]
         ctx.violation(describe(c, {"kind": "correspondence",
                                    "broken": "same_bodies (bodsR D atom) <clauses of program_clauses_for_goal> = false: the clause model "
